@@ -6,12 +6,14 @@ Require Import gen.EmitFacts.
 Import ListNotations.
 Open Scope list_scope.
 
-Theorem base_clause_wf_iff ancestors :
-  wf_base_clause (cpp_base_clause ancestors) = Nat.leb (List.length ancestors) 1.
-Proof.
-  destruct ancestors as [|a [|b r]]; [reflexivity | reflexivity |].
-  unfold cpp_base_clause. change cpp_base_sep_is_space with true. cbn. reflexivity.
-Qed.
+(* naming only the immediate base is well formed for every depth *)
+Theorem base_clause_immediate_wf ancestors : wf_base_clause (base_clause_immediate ancestors) = true.
+Proof. destruct ancestors as [|a r]; reflexivity. Qed.
+
+(* pushing every ancestor after one ": public" is well formed exactly up to one ancestor *)
+Theorem base_clause_spaced_wf_iff ancestors :
+  wf_base_clause (base_clause_spaced ancestors) = Nat.leb (List.length ancestors) 1.
+Proof. destruct ancestors as [|a [|b r]]; reflexivity. Qed.
 
 Lemma list_eqb_ascii_eq (a b : ident) : list_eqb Ascii.eqb a b = true -> a = b.
 Proof.
